@@ -47,10 +47,27 @@ func Harness_C10_client() {
 	// application traffic racing with the callback reply
 	var callErr error
 	callDone := false
+	callCtx, cancelCall := context.WithCancel(context.Background())
+	stalled := nondetBool("stalled-send")
+	if stalled {
+		ch.sendGate = make(chan struct{})
+	}
 	go func() {
-		_, callErr = cli.Call(context.Background(), "app.call", nil)
+		_, callErr = cli.Call(callCtx, "app.call", nil)
 		callDone = true
 	}()
+	if stalled {
+		// the transport stalls inside Send; the caller's context ends; another
+		// request is issued meanwhile: still at most one Send at a time
+		quiesce()
+		cancelCall()
+		quiesce()
+		go cli.Notify(context.Background(), "app.other", nil)
+		quiesce()
+		close(ch.sendGate)
+		quiesce()
+		reach("stalled-send")
+	}
 	if nondetBool("app-notify") {
 		cli.Notify(context.Background(), "app.note", nil)
 	}
@@ -77,6 +94,7 @@ func Harness_C10_client() {
 	vassert(cbDone, "the callback handler returned")
 	vassert(closed, "C05: Close returns")
 	vassert(callDone && callErr != nil, "C05: the outstanding Call ends with an error at Close")
+	cancelCall()
 	vassert(ch.closes == 1, "C10: Close is called exactly once per NewClient")
 	reach("closed")
 }
